@@ -14,4 +14,26 @@ def v(path, schema):
 v('/verif/MANIFEST.json', '/root/.vp/MANIFEST.schema.json')
 for p in sorted(glob.glob('/verif/evidence/*.json')):
     v(p, '/root/.vp/EVIDENCE.schema.json')
+# cross-checks: evidence level == claimed category, every claimed property has evidence, ids match the property list
+man = json.load(open('/verif/MANIFEST.json'))
+ids = [json.loads(l)['id'] for l in open('/verif/properties.jsonl') if l.strip()]
+claimed = {c['property_id']: c for c in man['checks']}
+na = {n['property_id'] for n in man.get('not_applicable', [])}
+for i in ids:
+    if i not in claimed and i not in na:
+        ok = False
+        print("INVALID property", i, "is neither claimed nor listed as not applicable")
+for pid, c in claimed.items():
+    if pid not in ids:
+        ok = False
+        print("INVALID manifest claims unknown property", pid)
+    try:
+        ev = json.load(open(c['evidence_file']))
+    except OSError:
+        ok = False
+        print("INVALID no evidence file for", pid)
+        continue
+    if ev.get('level') != c['level_claimed']['category'] or ev.get('property_id') != pid:
+        ok = False
+        print("INVALID", pid, "evidence level/property", ev.get('level'), ev.get('property_id'), "vs claimed", c['level_claimed']['category'])
 sys.exit(0 if ok else 1)
